@@ -37,6 +37,8 @@ JudgeProtect(i, e) ==
   ELSE IF a.sa \notin DOMAIN sas THEN B(i, << "INFRA" >>, "protect on an unknown SA object")
   ELSE LET su == sas[a.sa].suite IN
        IF ~FitsProtected(a.msg, su) THEN << >>
+       \* (the random source was made to fail during this call: an error and no datagram is the right outcome, C10 / C17)
+       ELSE IF Has(o, "failseen") /\ o.failseen THEN (IF o.err THEN << >> ELSE B(i, << e.prop >>, "the random source failed but protect returned a datagram"))
        ELSE IF o.err THEN B(i, << "C01" >>, "protect refused an encodable message")
        ELSE IF ~Has(o, "oracle") \/ ~Has(o.oracle, "mac") \/ ~Has(o.oracle, "pt") THEN B(i, << "C06" >>, "protected datagram too short or ciphertext not a block multiple")
        ELSE IF ~OracleOk(e, a.sa, a.role, Len(o.wire)) THEN B(i, << "INFRA" >>, "oracle mismatch on protect")
@@ -59,7 +61,10 @@ JudgeUnprotect(i, e) ==
          ELSE IF o.msg # x.msg THEN B(i, << "C01" >>, "without keys DecodeDecrypt is not plain decode (value differs)") ELSE << >>
   ELSE IF a.sa \notin DOMAIN sas THEN B(i, << "INFRA" >>, "unprotect on an unknown SA object")
   ELSE IF n >= 28 /\ w[17] # 46 THEN
-         (IF o.decrypts # 0 \/ o.macs # 0 THEN B(i, << "C02" >>, "a key was applied to a datagram that presents no Encrypted payload") ELSE << >>)
+         \* (unsupported non-critical payloads in front of the Encrypted payload are skipped, C13: such a datagram does present one;
+         \*  it is judged in the M direction only, the echo oracle's spans assume the Encrypted payload at octet 28)
+         (IF (LET r == ParseW(w) IN r.ok /\ (LET sup == SelectSeq(r.v.payloads, LAMBDA q : q.k # "UNK") IN Len(sup) > 0 /\ sup[1].k = "SK")) THEN << >>
+          ELSE IF o.decrypts # 0 \/ o.macs # 0 THEN B(i, << "C02" >>, "a key was applied to a datagram that presents no Encrypted payload") ELSE << >>)
   ELSE LET su == sas[a.sa].suite il == IcvLen(su.integ)
            hasMac == Has(o, "oracle") /\ Has(o.oracle, "mac") IN
        IF hasMac /\ ~OracleOk(e, a.sa, ~a.role, n) THEN B(i, << "INFRA" >>, "oracle mismatch on unprotect")
